@@ -1677,6 +1677,148 @@ def region_stream(R: Run, ops: Ops, cxE: Ctx, cxF: Ctx):
             f_["key"] = "gcp-" + f_["key"]
 
 
+# ------------------------------------------------------------------ GCP fit: boundary point counts, exact ground truth
+FIT_COUNTS = [3, 4, 5, 8, 9, 10, 12, 16, 25]
+FIT_TERMS = {"aff": 3, "bil": 4, "biq": 9}
+
+
+def gcp_layout(N, nx, ny):
+    g3 = [(x, y) for x in (0, nx / 2, nx) for y in (0, ny / 2, ny)]
+    if N == 3:
+        return [(0, 0), (nx, 0), (0, ny)]
+    if N == 4:
+        return [(0, 0), (nx, 0), (0, ny), (nx, ny)]
+    if N == 5:
+        return [(0, 0), (nx, 0), (0, ny), (nx, ny), (nx / 2, ny / 2)]
+    if N == 8:
+        return [q for q in g3 if q != (nx / 2, ny / 2)]
+    if N == 9:
+        return g3
+    if N == 10:
+        return g3 + [(nx / 4, ny / 4)]
+    if N == 12:
+        return [(x, y) for x in (0, nx / 4, nx / 2, nx) for y in (0, ny / 2, ny)]
+    if N == 16:
+        return [(x, y) for x in (0, nx / 4, nx / 2, nx) for y in (0, ny / 4, ny / 2, ny)]
+    return [(nx * i / 4, ny * j / 4) for i in range(5) for j in range(5)]
+
+
+def gcp_truth(rng, fam, nx=64, ny=64):
+    """ground-truth pixel->world polynomial with dyadic coefficients: {(i, j): (cx, cy)} for x^i y^j; every
+    non-linear term moves a point by at most ~1% of the image (0.3 px-sizes * short side), so the map stays a
+    well-conditioned bijection of the image (needed for the inverse fit to be determined)"""
+    deg = 2 if fam == "biq" else 1
+    c = {}
+    for i in range(deg + 1):
+        for j in range(deg + 1):
+            if fam == "aff" and i + j > 1:
+                continue
+            mag = 2.0 ** math.floor(math.log2(0.3 * min(nx, ny) / (16.0 * nx**i * ny**j))) if i + j > 1 else 1
+            c[(i, j)] = (rng.randint(-16, 16) * mag, rng.randint(-16, 16) * mag)
+    c[(0, 0)] = (500000.0 + rng.randint(0, 999), 6000000.0 - rng.randint(0, 999))
+    c[(1, 0)] = (30 * rng.choice([1, 0.5]), float(rng.choice([0, -2, 4])))
+    c[(0, 1)] = (float(rng.choice([0, 3, -4])), -30 * rng.choice([1, 0.5]))
+    if fam != "aff":
+        # make sure the family's own term is clearly present (otherwise the case degenerates to the smaller family)
+        m11 = 2.0 ** math.floor(math.log2(0.3 * min(nx, ny) / (16.0 * nx * ny)))
+        if abs(c[(1, 1)][0]) < 8 * m11:
+            c[(1, 1)] = (13 * m11, c[(1, 1)][1])
+    if fam == "biq":
+        m20 = 2.0 ** math.floor(math.log2(0.3 * min(nx, ny) / (16.0 * nx * nx)))
+        if abs(c[(2, 0)][0]) < 8 * m20:
+            c[(2, 0)] = (15 * m20, c[(2, 0)][1])
+    return c
+
+
+def truth_eval(c, x, y):
+    return tuple(sum(F(v[k]) * F(x) ** i * F(y) ** j for (i, j), v in c.items()) for k in (0, 1))
+
+
+def fit_kind_lines(R: Run):
+    """Poly2d.fit's model selection, observed by substituting its three back-ends: number of terms per point count"""
+    from odc.geo import math as M
+    orig = {k: getattr(M.Poly2d, k) for k in ("_fit3", "_fit4", "_fit9")}
+    for N in list(range(0, 30)) + [36, 49, 100]:
+        seen = []
+
+        def fn():
+            try:
+                for k, terms in (("_fit3", 3), ("_fit4", 4), ("_fit9", 9)):
+                    setattr(M.Poly2d, k, staticmethod((lambda t, f: lambda *a: (seen.append(t), f(*a))[1])(terms, orig[k])))
+                pts = np.asarray([((i * 7) % 11 + 0.25 * (i % 3), (i * 5) % 13 + 0.5 * (i % 2)) for i in range(N)], dtype="float64").reshape(-1, 2)
+                M.Poly2d.fit(pts, pts * 2.0 + 1.0)
+            finally:
+                for k in orig:
+                    setattr(M.Poly2d, k, staticmethod(orig[k]))
+            return str(seen[0]) if len(seen) == 1 else f"calls:{seen}"
+        R.corr(f"c02 fitkind {N}", fn, sig="fit-kind")
+
+
+def gcp_fit_stream(R: Run, ops: Ops):
+    """control points generated from exactly representable affine / bilinear / bi-quadratic ground truth for boundary
+    point counts.  Whenever the ground-truth family lies within the family that N admits (3: affine, 4..8: bilinear,
+    >= 9: bi-quadratic) the least-squares fit reproduces the ground truth exactly (C20 poly_fit_exact_affine /
+    _bilinear / _biquadratic), so pix2wld must hit every control point and follow the ground truth in between; when the
+    number of points equals the number of terms (3, 4, 9) the fit interpolates ANY data, in both directions."""
+    GCP = ops.GCP
+    rng = R.rng
+    for it in range(R.pick(160, 1600)):
+        N = FIT_COUNTS[it % len(FIT_COUNTS)]
+        fam = rng.choice(["aff", "bil", "biq"])
+        nx, ny = rng.choice([16, 32, 64, 128]), rng.choice([16, 32, 64, 128])
+        pix = gcp_layout(N, nx, ny)
+        c = gcp_truth(rng, fam, nx, ny)
+        wex = [truth_eval(c, x, y) for x, y in pix]
+        wld = [(float(a), float(b)) for a, b in wex]
+        if any(F(a) != ea or F(b) != eb for (a, b), (ea, eb) in zip(wld, wex)):
+            R.count("gcp-fit:skipped-inexact-ground-truth")
+            continue
+        terms = 3 if N == 3 else 4 if N < 9 else 9
+        infam = FIT_TERMS[fam] <= terms
+        interp = N == terms
+        desc = {"N": N, "family": fam, "shape": [ny, nx], "coef": {f"{i},{j}": [frac_s(v[0]), frac_s(v[1])] for (i, j), v in c.items()}}
+        case = {"op": "gcp-fit", "gbox": f"{ny} {nx} 1;0;0;0;1;0 3", "args": desc}
+        sig = f"gcp-fit|{fam}|N={N}|" + ("in-family" if infam else "interpolating" if interp else "out-of-family")
+        try:
+            g = GCP.GCPGeoBox((ny, nx), GCP.GCPMapping(np.asarray(pix, dtype="float64"), np.asarray(wld, dtype="float64"), "EPSG:32633"))
+            tol_w = 1e-5   # world units (metres at 6e6: measured residual 2e-9)
+            if infam or interp:
+                err = max(max(abs(F(float(a)) - b) for a, b in zip(g.pix2wld(float(x), float(y)), w)) for (x, y), w in zip(pix, wex))
+                R.oracle(err <= tol_w, "gcp-fit-misses-control-point", case,
+                         f"{N} control points from a {fam} map: pix2wld misses a control point by {float(err):.3g} world units", sig=sig)
+                # the same through a VIEW (crop with distinct offsets): pixel (x-1, y-2) of g[2:, 1:]
+                v = g[2:, 1:]
+                errv = max(max(abs(F(float(a)) - b) for a, b in zip(v.pix2wld(float(x) - 1, float(y) - 2), w)) for (x, y), w in zip(pix, wex))
+                R.oracle(errv <= tol_w, "gcp-fit-view-misses-control-point", case,
+                         f"{N} control points from a {fam} map: pix2wld of the view g[2:,1:] misses a control point by {float(errv):.3g}", sig=sig)
+                # footprint / bounding box: corner control points are vertices of the outline, every control point inside the box
+                ext = [tuple(q) for q in g.extent.exterior.points]
+                bb = g.boundingbox
+                span = max(bb.span_x, bb.span_y)
+                okc = all(min(max(abs(F(float(a)) - b) for a, b in zip(q, w)) for q in ext) <= tol_w
+                          for (x, y), w in zip(pix, wex) if x in (0, nx) and y in (0, ny))
+                okb = all(bb.left - 0.02 * span <= float(w[0]) <= bb.right + 0.02 * span and
+                          bb.bottom - 0.02 * span <= float(w[1]) <= bb.top + 0.02 * span for w in wex) and \
+                    all(bb.left - tol_w <= float(w[0]) <= bb.right + tol_w and bb.bottom - tol_w <= float(w[1]) <= bb.top + tol_w
+                        for (x, y), w in zip(pix, wex) if x in (0, nx) and y in (0, ny))
+                R.oracle(okc and okb, "gcp-fit-footprint-misses-control-point", case,
+                         f"{N} control points from a {fam} map: extent / boundingbox {tuple(bb.bbox)} do not contain the (corner) control points", sig=sig)
+            if infam:
+                err = F(0)
+                for _ in range(4):
+                    x, y = rng.randint(0, 4 * nx) / 4.0, rng.randint(0, 4 * ny) / 4.0
+                    t = truth_eval(c, x, y)
+                    err = max(err, max(abs(F(float(a)) - b) for a, b in zip(g.pix2wld(x, y), t)))
+                R.oracle(err <= tol_w, "gcp-fit-off-ground-truth", case,
+                         f"{N} control points from a {fam} map: pix2wld differs from the ground truth by {float(err):.3g} between control points", sig=sig)
+            if fam == "aff" or interp:
+                errp = max(max(abs(a - b) for a, b in zip(g.wld2pix(float(w[0]), float(w[1])), (x, y))) for (x, y), w in zip(pix, wex))
+                R.oracle(errp <= 1e-5, "gcp-fit-inverse-misses-control-point", case,
+                         f"{N} control points from a {fam} map: wld2pix misses a control point by {errp:.3g} px", sig=sig)
+        except Exception as e:  # pylint: disable=broad-except
+            R.oracle(False, "gcp-fit-raised", case, f"{type(e).__name__}: {e}", sig=sig)
+
+
 # ------------------------------------------------------------------ main
 def run(R: Run):
     mods = _import()
@@ -1691,6 +1833,9 @@ def run(R: Run):
     index_kind_lines(R, GB, GCP, Affine)
     falsy_sweep(R, ops, cxE, cxF)
     region_stream(R, ops, cxE, cxF)
+    # ---------- GCP fit: model selection per point count; exact ground truth at the boundary counts
+    fit_kind_lines(R)
+    gcp_fit_stream(R, ops)
 
     # ---------- chains of 2-3 view ops; every public accessor is evaluated on every VIEW of the chain
     CH_OPS = ["crop2", "crop2", "crop1", "pad", "pad", "ztos", "ztos", "zout", "flipx", "flipy", "tpix", "rot", "cpix",
@@ -2144,6 +2289,19 @@ def replay(R: Run, rec) -> int:
         got = g[roi]
         print("region:", roi, "->", got)
         region_oracle(Ctx(R2, False), g, roi, args.get("kind", "Geometry"), got)
+    elif op == "gcp-fit" and isinstance(args, dict):
+        N, (ny, nx) = args["N"], args["shape"]
+        c = {tuple(map(int, k.split(","))): (float(F(v[0])), float(F(v[1]))) for k, v in args["coef"].items()}
+        pix = gcp_layout(N, nx, ny)
+        wex = [truth_eval(c, x, y) for x, y in pix]
+        gg = GCP.GCPGeoBox((ny, nx), GCP.GCPMapping(np.asarray(pix, dtype="float64"),
+                                                     np.asarray([(float(a), float(b)) for a, b in wex], dtype="float64"), "EPSG:32633"))
+        err = max(max(abs(F(float(a)) - b) for a, b in zip(gg.pix2wld(float(x), float(y)), w)) for (x, y), w in zip(pix, wex))
+        errp = max(max(abs(a - b) for a, b in zip(gg.wld2pix(float(w[0]), float(w[1])), (x, y))) for (x, y), w in zip(pix, wex))
+        print(f"{N} control points ({args['family']} ground truth): pix2wld misses control points by {float(err):.3g}, wld2pix by {errp:.3g} px")
+        terms = 3 if N == 3 else 4 if N < 9 else 9
+        if FIT_TERMS[args["family"]] <= terms or N == terms:
+            R2.oracle(err <= 1e-5, key, case, f"pix2wld misses a control point by {float(err):.3g}")
     elif op == "acc-views":
         check_accessors(cx, g)
     elif op == "gcp-acc-views" and args:
